@@ -485,3 +485,34 @@ Proof.
   unfold check_precoloured; intros color pre H v p Hin. rewrite forallb_forall in H.
   specialize (H _ Hin); now apply Z.eqb_eq in H.
 Qed.
+
+(* what an accepting run of the per-frame entry point establishes *)
+Theorem check_frame_unfold : forall prog fuel ctbl atbl physl ridx pre after,
+  check_frame prog fuel ctbl atbl physl ridx pre after = true ->
+  let live := compute_live prog fuel in
+  let removed := removed_flags ridx (length prog) in
+  check_alloc prog live (color_of ctbl) (alias_of atbl) physl removed = true /\
+  check_precoloured (color_of ctbl) pre = true /\
+  compact removed (target (color_of ctbl) prog removed) = after.
+Proof.
+  intros prog fuel ctbl atbl physl ridx pre after H live removed.
+  unfold check_frame, check_frame_cert in H. rewrite !andb_true_iff in H.
+  destruct H as [[H1 H2] H3]. split; auto. split; auto.
+  unfold check_rewritten in H3. fold live removed in H3.
+  revert H3. generalize (compact removed (target (color_of ctbl) prog removed)).
+  assert (Lz : forall a b : list Z, list_eqb Z.eqb a b = true -> a = b).
+  { induction a as [|x a IH]; destruct b as [|y b]; cbn; try discriminate; auto.
+    intros E; apply andb_true_iff in E; destruct E as [E1 E2]. apply Z.eqb_eq in E1.
+    f_equal; auto. }
+  assert (Ln : forall a b : list nat, list_eqb Nat.eqb a b = true -> a = b).
+  { induction a as [|x a IH]; destruct b as [|y b]; cbn; try discriminate; auto.
+    intros E; apply andb_true_iff in E; destruct E as [E1 E2]. apply Nat.eqb_eq in E1.
+    f_equal; auto. }
+  assert (Li : forall a b : instr, instr_eqb a b = true -> a = b).
+  { intros [u1 d1 c1 m1 j1] [u2 d2 c2 m2 j2]; unfold instr_eqb; cbn.
+    rewrite !andb_true_iff. intros [[[[E1 E2] E3] E4] E5].
+    apply Lz in E1, E2, E3. apply Ln in E5. apply Bool.eqb_prop in E4. now subst. }
+  intros l; revert after. induction l as [|x l IH]; destruct after as [|y after]; cbn;
+    try discriminate; auto.
+  intros E; apply andb_true_iff in E; destruct E as [E1 E2]. f_equal; auto.
+Qed.
